@@ -28,8 +28,10 @@ import (
 	"verif/enumx"
 )
 
-// hop is one operation: 'A' AppendBack(fresh), 'R' RemoveFront, 'F' Front,
-// 'L' Len, 'G' Range stopping after N elements (N = len+1: never stops).
+// hop is one operation: 'A' AppendBack(fresh non-nil pointer), 'N'
+// AppendBack(nil) — a nil *T is an ordinary element for a queue of *T —,
+// 'R' RemoveFront, 'F' Front, 'L' Len, 'G' Range stopping after N elements
+// (N = len+1: never stops).
 type hop struct {
 	K byte `json:"k"`
 	N int  `json:"n,omitempty"`
@@ -39,6 +41,8 @@ func (o hop) String() string {
 	switch o.K {
 	case 'A':
 		return "AppendBack"
+	case 'N':
+		return "AppendBack(nil)"
 	case 'R':
 		return "RemoveFront"
 	case 'F':
@@ -117,6 +121,9 @@ func (w *bw) apply(o hop) (what, msg string) {
 		*v = w.ids
 		w.b.AppendBack(v)
 		w.q = append(w.q, v)
+	case 'N':
+		w.b.AppendBack(nil)
+		w.q = append(w.q, nil) // the reference stores nil like any other element
 	case 'R':
 		if len(w.q) == 0 {
 			panic("harness: RemoveFront on an empty queue is outside the alphabet")
@@ -157,54 +164,71 @@ func (w *bw) apply(o hop) (what, msg string) {
 	return "", ""
 }
 
-// key is the canonical state: reference queue length + complete real state.
+// key is the canonical state: the reference queue as (length, positions of its
+// nil elements) — all other elements are fresh and distinct, so that is its
+// content up to renaming — plus the complete real state. A slot is "occupied"
+// by position (index < end, the accessor's knowledge), not by its pointer
+// value: an occupied slot holding a nil element is 'N', a free slot is '.'.
 func (w *bw) key(limit int) string {
 	end, bs, slots, closed, prevOK := w.b.VerifSnapshot(limit)
 	var sb strings.Builder
-	fmt.Fprintf(&sb, "n%d c%d e%d b%d", len(w.q), len(slots), end, bs)
+	fmt.Fprintf(&sb, "n%d", len(w.q))
+	rank := map[*int]int{}
+	for i, p := range w.q {
+		if p == nil {
+			fmt.Fprintf(&sb, ",%d", i)
+		} else {
+			rank[p] = i
+		}
+	}
+	fmt.Fprintf(&sb, " c%d e%d b%d", len(slots), end, bs)
 	if !closed {
 		sb.WriteString(" OPEN")
 	}
 	if !prevOK {
 		sb.WriteString(" PREVBAD")
 	}
-	rank := map[*int]int{}
-	for i, p := range w.q {
-		rank[p] = i
-	}
 	stale := map[*int]int{}
 	sb.WriteString(" ")
 	for i := 0; i < len(slots); {
 		p := slots[i]
-		if p == nil {
+		occupied := i < end
+		switch {
+		case p == nil && !occupied:
 			j := i
-			for j < len(slots) && slots[j] == nil {
+			for j < len(slots) && slots[j] == nil && j >= end {
 				j++
 			}
 			fmt.Fprintf(&sb, ".%d", j-i)
 			i = j
 			continue
-		}
-		if r, ok := rank[p]; ok {
-			// run of consecutive ranks
-			j := i
-			for j < len(slots) && slots[j] != nil {
-				r2, ok2 := rank[slots[j]]
-				if !ok2 || r2 != r+(j-i) {
-					break
+		case p == nil:
+			sb.WriteString("N")
+		default:
+			if r, ok := rank[p]; ok && occupied {
+				// run of consecutive ranks in occupied slots
+				j := i
+				for j < len(slots) && j < end && slots[j] != nil {
+					r2, ok2 := rank[slots[j]]
+					if !ok2 || r2 != r+(j-i) {
+						break
+					}
+					j++
 				}
-				j++
+				fmt.Fprintf(&sb, "q%d-%d", r, r+(j-i)-1)
+				i = j
+				continue
+			} else if ok {
+				fmt.Fprintf(&sb, "f%d", r) // a queue element sitting in a free slot
+			} else {
+				k, seen := stale[p]
+				if !seen {
+					k = len(stale)
+					stale[p] = k
+				}
+				fmt.Fprintf(&sb, "s%d", k)
 			}
-			fmt.Fprintf(&sb, "q%d-%d", r, r+(j-i)-1)
-			i = j
-			continue
 		}
-		s, ok := stale[p]
-		if !ok {
-			s = len(stale)
-			stale[p] = s
-		}
-		fmt.Fprintf(&sb, "s%d", s)
 		i++
 	}
 	return sb.String()
@@ -241,7 +265,18 @@ func mkViol(isz, bsz int, mode string, h []hop, what, msg string) *violation {
 type bstate struct {
 	hist  []hop
 	qlen  int
+	nils  int // nil elements currently in the queue
 	depth int
+}
+
+func countNil(q []*int) int {
+	n := 0
+	for _, p := range q {
+		if p == nil {
+			n++
+		}
+	}
+	return n
 }
 
 type cfgResult struct {
@@ -250,6 +285,7 @@ type cfgResult struct {
 	trans, nt       int64
 	maxDepth        int
 	statesWithin60  int64
+	nilStates       int64 // states whose queue holds a nil element
 	viols           []*violation
 	incomplete      string
 	seen            map[string]bool
@@ -258,6 +294,7 @@ type cfgResult struct {
 	walks           int64
 	walkOutside     int64
 	walkOutsideDemo string
+	nilSearch       bool
 }
 
 const stateCap = 400000
@@ -271,14 +308,18 @@ func readOps(n int) []hop {
 	return out
 }
 
-func bfsConfig(r *enumx.Run, isz, bsz, lenBound int) *cfgResult {
+// bfsConfig searches to the fixpoint of canonical states with queue length <=
+// lenBound and at most maxNil nil elements in the queue at any time (the
+// bounded region is defined on states, so it is closed under the enabled
+// operations).
+func bfsConfig(r *enumx.Run, isz, bsz, lenBound, maxNil int) *cfgResult {
 	res := &cfgResult{isz: isz, bsz: bsz, seen: map[string]bool{}}
 	limit := 4 * (lenBound + 16)
 	root := newBW(isz, bsz)
 	res.seen[root.key(limit)] = true
 	res.states = 1
 	res.statesWithin60 = 1
-	queue := []bstate{{nil, 0, 0}}
+	queue := []bstate{{nil, 0, 0, 0}}
 	enqueue := func(h []hop, o hop, w *bw, depth int) {
 		k := w.key(limit)
 		if res.seen[k] {
@@ -286,6 +327,9 @@ func bfsConfig(r *enumx.Run, isz, bsz, lenBound int) *cfgResult {
 		}
 		res.seen[k] = true
 		res.states++
+		if countNil(w.q) > 0 {
+			res.nilStates++
+		}
 		if depth <= 60 {
 			res.statesWithin60++
 		}
@@ -293,7 +337,7 @@ func bfsConfig(r *enumx.Run, isz, bsz, lenBound int) *cfgResult {
 			res.maxDepth = depth
 		}
 		nh := append(append(make([]hop, 0, len(h)+1), h...), o)
-		queue = append(queue, bstate{nh, len(w.q), depth})
+		queue = append(queue, bstate{nh, len(w.q), countNil(w.q), depth})
 	}
 	for len(queue) > 0 {
 		if r.Expired() {
@@ -319,7 +363,9 @@ func bfsConfig(r *enumx.Run, isz, bsz, lenBound int) *cfgResult {
 		for _, o := range readOps(st.qlen) {
 			what, msg := w.apply(o)
 			res.trans++
-			res.nt++
+			if maxNil == 0 || st.nils > 0 {
+				res.nt++
+			}
 			if what != "" {
 				res.viols = append(res.viols, mkViol(isz, bsz, "bfs", append(append([]hop{}, st.hist...), o), what, msg))
 				bad = true
@@ -337,6 +383,9 @@ func bfsConfig(r *enumx.Run, isz, bsz, lenBound int) *cfgResult {
 		var muts []hop
 		if st.qlen < lenBound {
 			muts = append(muts, hop{K: 'A'})
+			if st.nils < maxNil {
+				muts = append(muts, hop{K: 'N'})
+			}
 		}
 		if st.qlen > 0 {
 			muts = append(muts, hop{K: 'R'})
@@ -345,7 +394,9 @@ func bfsConfig(r *enumx.Run, isz, bsz, lenBound int) *cfgResult {
 			w := replayHist(isz, bsz, st.hist)
 			what, msg := w.apply(o)
 			res.trans++
-			res.nt++
+			if maxNil == 0 || st.nils > 0 || o.K == 'N' {
+				res.nt++ // without a nil involved the pair is already part of the nil-free search
+			}
 			if what != "" {
 				res.viols = append(res.viols, mkViol(isz, bsz, "bfs", append(append([]hop{}, st.hist...), o), what, msg))
 				continue
@@ -369,15 +420,23 @@ func observe(w *bw, h []hop) *violation {
 
 // walk runs one long-lived object through fill-to-peak / drain-to-trough
 // cycles for steps mutating operations, observing after every one.
-func walk(res *cfgResult, peak, trough, steps, limit int, checkSeen bool) {
+// With nilEvery > 0 every nilEvery-th append stores nil as long as fewer than
+// maxNil nil elements are queued.
+func walk(res *cfgResult, peak, trough, steps, limit int, checkSeen bool, nilEvery, maxNil int) {
 	w := newBW(res.isz, res.bsz)
 	var h []hop
 	up := true
+	appends := 0
 	res.walks++
 	for i := 0; i < steps; i++ {
 		o := hop{K: 'A'}
 		if !up {
 			o = hop{K: 'R'}
+		} else {
+			appends++
+			if nilEvery > 0 && appends%nilEvery == 0 && countNil(w.q) < maxNil {
+				o = hop{K: 'N'}
+			}
 		}
 		h = append(h, o)
 		what, msg := w.apply(o)
@@ -416,7 +475,7 @@ func runCase(c caseT) *violation {
 			if what, msg := w.apply(o); what != "" {
 				return mkViol(c.Isz, c.Bsz, "walk", c.Hist[:i+1], what, msg)
 			}
-			if o.K == 'A' || o.K == 'R' {
+			if o.K == 'A' || o.K == 'N' || o.K == 'R' {
 				if v := observe(w, c.Hist[:i+1]); v != nil {
 					return v
 				}
@@ -444,58 +503,91 @@ func run(r *enumx.Run, replay *enumx.ReplayCase) {
 	}
 	lenBound := 60
 	walkSteps := 60
+	nilLenExtra, maxNil := 4, 2
 	if r.Thorough() {
 		lenBound = 150
+		nilLenExtra, maxNil = 8, 3
 	}
-	r.Rule(fmt.Sprintf("explicit-state BFS on the real ring.Buffered[int] against a plain slice queue for NewBuffered(initial 0..5, buffer 0..5): alphabet AppendBack(fresh value), RemoveFront (non-empty only), Front, Len, Range stopping after k = 1..len+1 elements; search to the FIXPOINT of canonical states with queue length <= %d (>= the property's sequence length 60, so no sequence of <= 60 operations leaves the bounded region; the designed bound 3*bsize+4 is subsumed); canonical key = reference queue length + the complete real state (capacity, end, bsize, every slot as nil / queue rank / stale, next/prev consistency) read by an in-package accessor; successors by replaying the shortest history on a fresh object plus one operation. Then every grow/shrink cycle (fill to P in 1..3*bsize+4, drain to Q in 0..P-1, repeat; %d mutating operations, plus the 0->60->0 sweep) on one long-lived object, every non-mutating operation after every step, and every walk state is looked up in the fixpoint set. evaluations = operations executed on the real object and compared; distinct non-trivial = the BFS transitions (distinct (canonical state, operation) pairs); the walk transitions revisit those pairs on long-lived objects and are not counted as distinct.", lenBound, walkSteps))
-	type cfg struct{ isz, bsz int }
+	r.Rule(fmt.Sprintf("explicit-state BFS on the real ring.Buffered[int] against a plain slice queue for NewBuffered(initial 0..5, buffer 0..5); operations AppendBack(fresh non-nil pointer), AppendBack(nil) (a nil *T is an ordinary element of a queue of *T), RemoveFront (non-empty only), Front, Len, Range stopping after k = 1..len+1 elements. Search 1 (no nil elements): FIXPOINT of canonical states with queue length <= %d (>= the property's sequence length 60, so no sequence of <= 60 operations leaves the bounded region; the designed bound 3*bsize+4 is subsumed). Search 2 (both value kinds): FIXPOINT of canonical states with queue length <= 3*bsize+%d and AT MOST %d nil elements in the queue at any time (bounded to keep the 2^len nil patterns finite and small; AppendBack(nil) is simply not enabled in a state that already queues %d). Canonical key = reference queue (length, positions of nil elements) + the complete real state (capacity, end, bsize, every slot as free / occupied-by-nil-element / queue rank / stale — occupied is decided by position < end, not by the pointer —, next/prev consistency) read by an in-package accessor; successors by replaying the shortest history on a fresh object plus one operation. Front/RemoveFront returning nil for an empty queue versus for a nil element is told apart by Len, compared in the same state. Then every grow/shrink cycle (fill to P in 1..3*bsize+4, drain to Q in 0..P-1, repeat; %d mutating operations; all-fresh, and with every / every second append nil while fewer than %d are queued; plus the 0->60->0 sweep) on one long-lived object, every non-mutating operation after every step, and every walk state is looked up in the fixpoint set of its search. evaluations = operations executed on the real object and compared; distinct non-trivial = BFS transitions that are distinct (canonical state, operation) pairs (search 2 counts only pairs involving a nil element; the rest repeat search 1); walk transitions revisit those pairs on long-lived objects and are not counted as distinct.", lenBound, nilLenExtra, maxNil, maxNil, walkSteps, maxNil))
+	type cfg struct {
+		isz, bsz int
+		nilKind  bool
+	}
 	var cfgs []cfg
 	for b := 5; b >= 0; b-- { // largest first for load balance
 		for i := 5; i >= 0; i-- {
-			cfgs = append(cfgs, cfg{i, b})
+			cfgs = append(cfgs, cfg{i, b, false}, cfg{i, b, true})
 		}
 	}
 	results := make([]*cfgResult, len(cfgs))
 	var mu sync.Mutex
 	done := r.Parallel(len(cfgs), func(i int) {
 		c := cfgs[i]
-		res := bfsConfig(r, c.isz, c.bsz, lenBound)
-		if res.incomplete == "" && len(res.viols) == 0 {
-			limit := 4 * (lenBound + 16)
-			for p := 1; p <= 3*c.bsz+4; p++ {
-				for q := 0; q < p; q++ {
-					walk(res, p, q, walkSteps, limit, true)
+		var res *cfgResult
+		if !c.nilKind {
+			res = bfsConfig(r, c.isz, c.bsz, lenBound, 0)
+			if res.incomplete == "" && len(res.viols) == 0 {
+				limit := 4 * (lenBound + 16)
+				for p := 1; p <= 3*c.bsz+4; p++ {
+					for q := 0; q < p; q++ {
+						walk(res, p, q, walkSteps, limit, true, 0, 0)
+					}
+				}
+				walk(res, 60, 0, 120, limit, lenBound >= 60, 0, 0)
+			}
+		} else {
+			nb := 3*c.bsz + nilLenExtra
+			res = bfsConfig(r, c.isz, c.bsz, nb, maxNil)
+			res.nilSearch = true
+			if res.incomplete == "" && len(res.viols) == 0 {
+				limit := 4 * (nb + 16)
+				for p := 1; p <= 3*c.bsz+4; p++ {
+					for q := 0; q < p; q++ {
+						walk(res, p, q, walkSteps, limit, true, 1, maxNil)
+						walk(res, p, q, walkSteps, limit, true, 2, maxNil)
+					}
 				}
 			}
-			walk(res, 60, 0, 120, limit, lenBound >= 60)
 		}
 		mu.Lock()
 		results[i] = res
 		mu.Unlock()
 	})
 	if done < len(cfgs) {
-		r.Incomplete(fmt.Sprintf("buffered: budget expired after %d of %d configurations", done, len(cfgs)))
+		r.Incomplete(fmt.Sprintf("buffered: budget expired after %d of %d searches", done, len(cfgs)))
 	}
 	var states, trans, walkTrans, walks, within60, outside int64
+	var nilStates, nilSearchStates, nilTrans int64
 	maxDepth, maxCap := 0, 0
 	perCfg := map[string]int64{}
+	perCfgNil := map[string]int64{}
 	for _, res := range results {
 		if res == nil {
 			continue
 		}
-		states += res.states
+		name := "no nil elements"
+		if res.nilSearch {
+			name = fmt.Sprintf("<= %d nil elements queued", maxNil)
+			states += res.nilStates // the nil-free states of search 2 are states of search 1
+			nilStates += res.nilStates
+			nilSearchStates += res.states
+			nilTrans += res.trans
+			perCfgNil[fmt.Sprintf("%d,%d", res.isz, res.bsz)] = res.states
+		} else {
+			states += res.states
+			within60 += res.statesWithin60
+			if res.maxDepth > maxDepth {
+				maxDepth = res.maxDepth
+			}
+			perCfg[fmt.Sprintf("%d,%d", res.isz, res.bsz)] = res.states
+		}
 		trans += res.trans
 		walkTrans += res.walkTrans
 		walks += res.walks
-		within60 += res.statesWithin60
 		outside += res.walkOutside
-		if res.maxDepth > maxDepth {
-			maxDepth = res.maxDepth
-		}
 		if res.maxCap > maxCap {
 			maxCap = res.maxCap
 		}
-		perCfg[fmt.Sprintf("%d,%d", res.isz, res.bsz)] = res.states
 		r.Count(res.trans+res.walkTrans, res.nt)
 		for _, v := range res.viols {
 			r.Violation(v.key, v.msg, v.c)
@@ -503,13 +595,13 @@ func run(r *enumx.Run, replay *enumx.ReplayCase) {
 		if res.incomplete != "" {
 			r.Incomplete(res.incomplete)
 		} else if len(res.viols) == 0 {
-			r.Space(fmt.Sprintf("NewBuffered(%d,%d): fixpoint with %d canonical states (deepest shortest history %d), every operation in every state; %d cycle walks", res.isz, res.bsz, res.states, res.maxDepth, res.walks))
+			r.Space(fmt.Sprintf("NewBuffered(%d,%d), %s: fixpoint with %d canonical states (deepest shortest history %d), every operation in every state; %d cycle walks", res.isz, res.bsz, name, res.states, res.maxDepth, res.walks))
 		}
 		if res.walkOutside > 0 {
 			r.Incomplete("machinery: a cycle walk reached a state that is not in the BFS fixpoint set: " + res.walkOutsideDemo)
 		}
 		if res.isz == 2 && (res.bsz == 1 || res.bsz == 3) {
-			r.Sample(map[string]any{"config": fmt.Sprintf("NewBuffered(%d,%d)", res.isz, res.bsz), "canonical_states": res.states, "bfs_transitions": res.trans, "deepest_shortest_history": res.maxDepth, "largest_capacity_seen": res.maxCap})
+			r.Sample(map[string]any{"config": fmt.Sprintf("NewBuffered(%d,%d)", res.isz, res.bsz), "search": name, "canonical_states": res.states, "bfs_transitions": res.trans, "deepest_shortest_history": res.maxDepth, "largest_capacity_seen": res.maxCap})
 		}
 	}
 	r.Set("states", states)
@@ -523,6 +615,12 @@ func run(r *enumx.Run, replay *enumx.ReplayCase) {
 	r.Set("largest_capacity_seen", maxCap)
 	r.Set("walk_states_not_in_fixpoint", outside)
 	r.Set("canonical_states_per_config_isz_bsz", perCfg)
+	r.Set("nil_search_queue_length_bound", fmt.Sprintf("3*bsize+%d", nilLenExtra))
+	r.Set("nil_search_max_nil_elements_queued", maxNil)
+	r.Set("nil_search_states", nilSearchStates)
+	r.Set("nil_search_states_with_a_nil_element", nilStates)
+	r.Set("nil_search_bfs_transitions", nilTrans)
+	r.Set("nil_search_states_per_config_isz_bsz", perCfgNil)
 }
 
 func TestCheck(t *testing.T) { enumx.Main(t, "C14", "buffered", run) }
